@@ -338,6 +338,7 @@ def abstract(line):
     if line is None:
         return None
     s = re.sub(r" mod=\S+ cre=\S+ cvp=\S+", "", line)
+    s = re.sub(r" aa=\d+ af=\d+$", "", s)
     s = re.sub(r" existed=.*$", "", s)
     s = re.sub(r" end=\S+ cb=\[.*\]$", "", s)
     s = re.sub(r" nv=\[.*\]$", "", s)
@@ -353,6 +354,13 @@ def nv_part(line):
         return m.group(1)
     m = re.search(r" nv=(\[.*\]|\S+)$", line)
     return m.group(1) if m else ""
+
+
+def alloc_part(line):
+    if line is None:
+        return None
+    m = re.search(r" aa=\d+ af=\d+$", line)
+    return m.group(0) if m else ""
 
 
 def info_part(line):
@@ -432,6 +440,8 @@ def compare(r, categories):
             res["nv"].append(i)
         if "info" in categories and info_part(a) != info_part(b):
             res["info"].append(i)
+        if "alloc" in categories and alloc_part(a) != alloc_part(b):
+            res["alloc"].append(i)
         if kind not in NOSPEC and i < len(r.spec) and r.spec[i] is not None:
             if abstract(a) != r.spec[i]:
                 res["oracle"].append(i)
